@@ -1,6 +1,6 @@
 (* The whole profile: dictionary, thread table and the events of every stream
    are read back from the file the writer produced. *)
-From PV Require Import Base.Tac Prof.ProfDefs Prof.ProfBytes Prof.ProfWriter Prof.ProfEvents Prof.ProfFile Prof.ProfTables.
+From PV Require Import Base.Tac Prof.ProfDefs Prof.ProfBytes Prof.ProfWriter Prof.ProfEvents Prof.ProfFile Prof.ProfTables Prof.ProfDump.
 From Coq Require Import NArith.
 Local Open Scope N_scope.
 
@@ -64,7 +64,7 @@ Definition stream_ok (il : list N) (avail : N) (s : stream) : Prop :=
   nonul (s_hr s) /\ N.of_nat (length (s_events s)) < 18446744073709551616 /\
   N.of_nat (length (s_infos s)) < 4294967296 /\
   Forall (fun kv => N.of_nat (length (fst kv)) < 4294967296 /\ N.of_nat (length (snd kv)) < 4294967296) (s_infos s) /\
-  N.of_nat (156 + length (concat (map ser_info (s_infos s)))) < avail /\       (* thread_size(thread) < event_avail_space *)
+  156 < avail /\                                         (* an entry without infos fits; then thread_size(thread) < event_avail_space *)
   evs_ok il avail (s_events s).
 
 Lemma length_ser_thread : forall t, length (ser_thread t) = (156 + length (concat (map ser_info (t_infos t))))%nat.
@@ -90,7 +90,7 @@ Theorem encode_read_back : forall avail alloc d ss fuel,
   (length (encode avail alloc d ss) <= fuel)%nat ->
   decode fuel (fun o => lookup o (encode avail alloc d ss))
          (alloc 0%nat 0%nat) (length d) (alloc 1%nat 0%nat) (length (stored ss))
-  = Some (profile_view alloc d ss).
+  = Some (profile_view avail alloc d ss).
 Proof.
   intros avail alloc d ss fuel Hinj Hlt Hav Hd Hss Hfuel.
   rewrite encode_whole in *.
@@ -108,19 +108,23 @@ Proof.
     rewrite (parse_key_ser k rest Hok).
     pose proof (parse_key_ser k [] Hok) as H0. rewrite app_nil_r in H0. rewrite H0. reflexivity. }
   (* thread table *)
-  set (txs := map (fun p => ser_thread (thread_of alloc (fst p) (snd p))) (stored ss)).
-  assert (Htok : forall i s, In (i, s) (stored ss) -> thread_ok (thread_of alloc i s) /\ stream_ok (map k_ilen d) avail s).
+  set (txs := map (fun p => ser_thread (thread_of avail alloc (fst p) (snd p))) (stored ss)).
+  assert (Htok : forall i s, In (i, s) (stored ss) -> thread_ok (thread_of avail alloc i s) /\ stream_ok (map k_ilen d) avail s).
   { intros i s Hin. destruct (in_stored ss i s Hin) as [Hn _]. apply nth_error_In in Hn.
     pose proof (Hss s Hn) as Hs. split; [|exact Hs].
     destruct Hs as (H1 & H2 & H3 & H4 & _ & _).
-    unfold thread_ok, thread_of. cbn [t_hr t_nbev t_first t_infos]. repeat apply conj; auto.
-    pose proof (Hlt (2 + i)%nat 0%nat) as Hl. unfold NOOFF in Hl. lia. }
+    unfold thread_ok, thread_of, kept_infos. cbn [t_hr t_nbev t_first t_infos]. repeat apply conj; auto.
+    - pose proof (Hlt (2 + i)%nat 0%nat) as Hl. unfold NOOFF in Hl. lia.
+    - pose proof (kept_length avail (s_infos s) 156). lia.
+    - rewrite Forall_forall in *. intros kv Hkv. apply H4. eapply kept_incl, Hkv. }
   destruct (table_in_file alloc Hinj Hlt chains Hnd Hcf avail Hav parse_thread (fun x => fst (parse_thread x))
               1%nat BT_THREAD txs) as (tb & Htb & Hths).
   { right. left. reflexivity. }
   { rewrite Forall_forall. intros x Hx. apply in_map_iff in Hx. destruct Hx as ([i s] & <- & Hp).
     destruct (Htok i s Hp) as [_ (_ & _ & _ & _ & Hsz & _)]. cbn [fst snd].
-    rewrite length_ser_thread. unfold thread_of. cbn [t_infos]. lia. }
+    rewrite length_ser_thread. unfold thread_of. cbn [t_infos].
+    pose proof (kept_size avail (s_infos s)) as Hk. rewrite infos_sz_ser in Hk.
+    pose proof (thread_size_lt avail (s_infos s) 156 Hsz). lia. }
   { intros x Hx rest. apply in_map_iff in Hx. destruct Hx as ([i s] & <- & Hp).
     destruct (Htok i s Hp) as [Hok _]. cbn [fst snd].
     rewrite (parse_thread_ser _ rest Hok).
@@ -143,3 +147,8 @@ Proof.
     unfold chains, chains_of. right. right. apply in_map_iff. exists (i, s). split; [reflexivity|].
     apply in_indexed. split; [lia|]. rewrite Nat.sub_0_r. exact Hn.
 Qed.
+
+(* a stream whose infos all fit is stored with all of them *)
+Lemma thread_of_all_infos : forall avail alloc i s,
+  156 + infos_sz (s_infos s) < avail -> t_infos (thread_of avail alloc i s) = s_infos s.
+Proof. intros. unfold thread_of. cbn [t_infos]. apply kept_infos_all_when_fit. assumption. Qed.
